@@ -245,10 +245,11 @@ pub struct ProbeLog {
 /// With the index signal the resampler's output therefore *is* its evaluation instant.
 /// It also checks that the window it is asked to read holds consecutive stream samples
 /// (optionally preceded by the zero pre-roll): anything else is stale or skipped storage.
-/// Offset added to a point whose window holds anything but consecutive stream samples. Large enough that a
-/// weight above ~1e-12 * |instant| throws the recovered instant out of the spacing band, small enough that the
-/// rounding noise of a position that sits exactly on a grid point (weight ~1e-13) stays inside the tolerance.
-pub const POISON: f64 = 1.0e3;
+/// Offset added to a point whose window holds anything but consecutive stream samples. The spacing oracle's
+/// tolerance is a few ulps of the stream position p (~1e-14 * p). A position that sits exactly on a grid point
+/// gives the neighbouring (possibly stale) point a weight that is pure rounding noise (~1e-12 at most): times
+/// 0.01 that stays inside the tolerance, while any real weight (>= 1e-9) throws the recovered instant out of it.
+pub const POISON: f64 = 1.0e-2;
 
 pub struct ProbeInterp {
     pub len: usize,
@@ -262,17 +263,9 @@ impl<T: Flt> SincInterpolator<T> for ProbeInterp {
         let mut log = self.log.lock().unwrap();
         log.calls += 1;
         if index + self.len > wave.len() || subindex >= self.n {
-            if log.bad_args.is_none() {
-                log.bad_args = Some(format!(
-                    "index {} + len {} vs wave.len() {}, subindex {} of {}",
-                    index,
-                    self.len,
-                    wave.len(),
-                    subindex,
-                    self.n
-                ));
-            }
-            return T::from64(f64::NAN);
+            // like the real kernels: invalid arguments are a panic
+            drop(log);
+            panic!("Tried to interpolate for index {} + len {} with wave.len() {}, or to use sinc subindex {}, max is {}", index, self.len, wave.len(), subindex, self.n.saturating_sub(1));
         }
         if self.check_window && log.bad_window.is_none() {
             let w = &wave[index..index + self.len];
@@ -419,15 +412,19 @@ impl<T: Flt> SincInterpolator<T> for CrossInterp<T> {
                 let bound = (self.len.max(16) as f64) * (T::EPS / 2.0) * s + 2.0 * self.len as f64 * denorm;
                 log.compared += 1;
                 for a in 1..vals.len() {
-                    let d = (vals[a].to64() - vals[0].to64()).abs();
-                    let ok = if bound == 0.0 { d == 0.0 } else { d <= bound };
+                    let (va, v0) = (vals[a].to64(), vals[0].to64());
+                    if va.is_nan() && v0.is_nan() {
+                        continue;
+                    }
+                    let d = (va - v0).abs();
+                    let ok = if s.is_nan() || s.is_infinite() { va.is_nan() == v0.is_nan() && (va.is_nan() || va.is_infinite() == v0.is_infinite()) } else if bound == 0.0 { d == 0.0 } else { d <= bound };
                     if bound > 0.0 {
                         let r = d / bound;
                         if r > log.worst {
                             log.worst = r;
                         }
                     }
-                    if !ok || !vals[a].to64().is_finite() && vals[0].to64().is_finite() {
+                    if !ok {
                         log.violation = Some(format!(
                             "kernel {} returned {:e}, {} returned {:e}; |diff| {:e} > bound {:e} (len {}, index {}, subindex {})",
                             self.kernels[a].0,
@@ -455,7 +452,7 @@ impl<T: Flt> SincInterpolator<T> for CrossInterp<T> {
             // note: the kernels require index + len < wave.len(), one spare element follows; it is NaN
             for (ki, (name, k)) in self.kernels.iter().enumerate() {
                 let v = k.get_sinc_interpolated(&emb, off, subindex);
-                if v.bits() != vals[ki].bits() {
+                if v.bits() != vals[ki].bits() && !(v.to64().is_nan() && vals[ki].to64().is_nan()) {
                     log.violation = Some(format!(
                         "kernel {} on the same window embedded at offset {} among NaNs returned {:e} instead of {:e} (reads outside its window) len {} subindex {}",
                         name,
@@ -533,6 +530,10 @@ pub fn build<T: Flt>(cfg: &Config) -> Result<Built<T>, ResamplerConstructionErro
                     let log = Arc::new(Mutex::new(ProbeLog::default()));
                     probe = Some(log.clone());
                     Some(Box::new(ProbeInterp { len: cfg.sinc_len_rounded(), n: cfg.oversampling, check_window: true, log }))
+                }
+                Kernel::Custom => {
+                    let log = Arc::new(Mutex::new(ProbeLog::default()));
+                    Some(Box::new(ProbeInterp { len: cfg.sinc_len.max(2), n: cfg.oversampling, check_window: false, log }))
                 }
                 Kernel::Cross => {
                     let log = Arc::new(Mutex::new(CrossLog::default()));
